@@ -216,7 +216,22 @@ PROPS['C14'] = {
     'assumptions': ['XML emission/parsing of bounds and limits is outside (C04)', 'format! stubbed on error paths'],
 }
 
-FIX_COMMITS = ['4bb8197', '4c9a29a', '15147a8', '4e117ba', 'b93d656', 'a099e6e']
+TRUSTED_ALLOW['pcw'] = TRUSTED_ALLOW['bits'] | TRUSTED_ALLOW['page_w'] | {
+    'external_body:eq', 'external_body:to_f64', 'external_body:to_i64', 'external_body:update_min', 'external_body:update_max',
+    'external_body:write_buffer_to_disk',
+}
+PROPS['C10']['verus'] = ['bits', 'pcw']
+PROPS['C14']['verus'] = ['pcw']
+PROPS['C14']['level'] = 'proof'
+_PCW_ASSUME = [
+    'contract-only callees inside unit pcw, each proved on the real function by the Kani unit wr_k: RecordValue::to_f64/to_i64 (value of a record), update_min/update_max (generic; instantiated at f64 and i64 in Kani)',
+    'derive(PartialEq) of RecordName is structural; String fields are modelled by an identity tag',
+    'point_count < u64::MAX',
+]
+PROPS['C10']['assumptions'] += _PCW_ASSUME
+PROPS['C14']['assumptions'] += _PCW_ASSUME + [_DEV]
+
+FIX_COMMITS = ['4bb8197', '4c9a29a', '15147a8', '4e117ba', 'b93d656', 'a099e6e', 'e707a6b', '30d67e9']
 
 _PENDING = 'unit not completed yet in the build round (applicable; see DESIGN.md §1) — not claimed until its obligations are discharged'
 NOT_APPLICABLE = {
